@@ -23,6 +23,9 @@ CHECKS = {
  "C06": dict(cat="model_checking", tech="TLA+ GlobalLoop model (callback grammar, export reads last LB/UB, termination) + TLC trace validation of placeGlobal callbacks (InArea, Finite, blend, grammar)",
              text="Design level: TLC checks the control flow of the global loop exhaustively for small step counts (grammar, the export uses the last lower and upper bound, termination). Code level (numeric content, exploration over inputs): every UpperBound exposure, every coordinate, the callback grammar and the returned blend of recorded runs are checked by TLC.",
              ref="5/C06", engine="tlc-design; record + tlc-trace"),
+ "C08": dict(cat="model_checking", tech="TLA+ fork/join model (all interleavings; uninterpreted results; read/write sets) + hook-forced completion orders, run-order histories and ThreadSanitizer runs validated by TLC's memo contract",
+             text="Design level: TLC explores every interleaving of the two solver threads with the main thread (results are terms over what was read, so a cross-thread read makes them schedule dependent; the racy variant is rejected). Code level: the hook forces both completion orders of every lower-bound step plus random orders/delays, on one and many cores; job histories in different orders and processes; every pair of executions of the same stage on the same input must agree bitwise (TLC memo); TSan reports are refused events.",
+             ref="5/C08", engine="tlc-design; record + tlc-trace"),
  "C09": dict(cat="model_checking", tech="TLA+ orientation algebra + IncrHpwl spec: TLC-enumerated cases and update histories replayed into Circuit/IncrNetModel; TLC trace validation of random circuits",
              text="Exhaustive within bounds: every orientation x size x pin offset (the algebra is generated from two generators, independent of the code's case table) and every update history of the implementation-shaped IncrHpwl model (whose invariant value = from-scratch TLC checks) is replayed into the real objects; random circuits and histories are recorded and their wirelengths recomputed by TLC.",
              ref="5/C09", engine="tlc-edges + replay; record + tlc-trace"),
